@@ -33,17 +33,58 @@ pub open spec fn leq<T: Context>(c: T, a: T::NodeValue, b: T::NodeValue) -> bool
     c.merge_spec(a, b) == b
 }
 
+/// The edge `e` is absorbed by the assignment `vals`: if its source has a value v and the transfer
+/// yields Some(x), the target has a value t with merge(x, t) == t.
+pub open spec fn edge_ok_c<T: Context>(c: T, vals: Map<NodeIndex, T::NodeValue>, e: int) -> bool {
+    let s = c.graph_spec().edge_seq()[e].0;
+    let t = c.graph_spec().edge_seq()[e].1;
+    vals.contains_key(s) ==>
+        match c.update_edge_spec(vals[s], EdgeIndex { i: e as usize }) {
+            Some(x) => vals.contains_key(t) && leq(c, x, vals[t]),
+            None => true,
+        }
+}
+
+/// node has a value and all its outgoing edges are absorbed
+pub open spec fn closed_at_c<T: Context>(c: T, vals: Map<NodeIndex, T::NodeValue>, node: NodeIndex) -> bool {
+    &&& vals.contains_key(node)
+    &&& forall |e: int| 0 <= e < c.graph_spec().edge_seq().len() && c.graph_spec().edge_seq()[e].0 == node
+            ==> #[trigger] edge_ok_c(c, vals, e)
+}
+
+/// every node with a value whose priority is not in `s` is closed
+pub open spec fn closed_off_c<T: Context>(c: T, prios: Seq<usize>, vals: Map<NodeIndex, T::NodeValue>, s: Set<usize>) -> bool {
+    forall |node: NodeIndex| vals.contains_key(node) && !s.contains(prios[node.i as int]) ==> #[trigger] closed_at_c(c, vals, node)
+}
+
+/// the same, edge by edge (equivalent: lemma_closed_off_edges)
+pub open spec fn closed_off_e_c<T: Context>(c: T, prios: Seq<usize>, vals: Map<NodeIndex, T::NodeValue>, s: Set<usize>) -> bool {
+    forall |e: int| 0 <= e < c.graph_spec().edge_seq().len() && !s.contains(prios[c.graph_spec().edge_seq()[e].0.i as int])
+        ==> #[trigger] edge_ok_c(c, vals, e)
+}
+
+// The predicates on a `Computation` are thin (inlined) readings of the component-level ones above, so
+// that a change of the worklist alone visibly leaves them alone.
 impl<T: Context> Computation<T> {
+    #[verifier::inline]
     pub open spec fn graph(&self) -> DiGraph<T::NodeLabel, T::EdgeLabel> { self.fp_context.graph_spec() }
     /// number of nodes
-    pub open spec fn nn(&self) -> nat { self.graph().node_count_spec() }
-    pub open spec fn edges(&self) -> Seq<(NodeIndex, NodeIndex)> { self.graph().edge_seq() }
-    pub open spec fn valid_edge(&self, e: int) -> bool { 0 <= e < self.edges().len() }
-    pub open spec fn src(&self, e: int) -> NodeIndex { self.edges()[e].0 }
-    pub open spec fn tgt(&self, e: int) -> NodeIndex { self.edges()[e].1 }
+    #[verifier::inline]
+    pub open spec fn nn(&self) -> nat { self.fp_context.graph_spec().node_count_spec() }
+    #[verifier::inline]
+    pub open spec fn edges(&self) -> Seq<(NodeIndex, NodeIndex)> { self.fp_context.graph_spec().edge_seq() }
+    #[verifier::inline]
+    pub open spec fn valid_edge(&self, e: int) -> bool { 0 <= e < self.fp_context.graph_spec().edge_seq().len() }
+    #[verifier::inline]
+    pub open spec fn src(&self, e: int) -> NodeIndex { self.fp_context.graph_spec().edge_seq()[e].0 }
+    #[verifier::inline]
+    pub open spec fn tgt(&self, e: int) -> NodeIndex { self.fp_context.graph_spec().edge_seq()[e].1 }
+    #[verifier::inline]
     pub open spec fn has(&self, node: NodeIndex) -> bool { self.node_values@.contains_key(node) }
+    #[verifier::inline]
     pub open spec fn val(&self, node: NodeIndex) -> T::NodeValue { self.node_values@[node] }
     /// priority of a node
+    #[verifier::inline]
     pub open spec fn prio(&self, node: NodeIndex) -> usize { self.node_priority_list@[node.i as int] }
 
     /// Representation invariant: the two lists are inverse permutations of 0..n,
@@ -68,38 +109,29 @@ impl<T: Context> Computation<T> {
         &&& self.priority_to_node_list == o.priority_to_node_list
     }
 
-    /// The edge `e` is absorbed: if its source has a value v and the transfer yields Some(x),
-    /// the target has a value t with merge(x, t) == t.
-    pub open spec fn edge_ok(&self, e: int) -> bool {
-        self.has(self.src(e)) ==>
-            match self.fp_context.update_edge_spec(self.val(self.src(e)), EdgeIndex { i: e as usize }) {
-                Some(x) => self.has(self.tgt(e)) && leq(self.fp_context, x, self.val(self.tgt(e))),
-                None => true,
-            }
-    }
+    #[verifier::inline]
+    pub open spec fn edge_ok(&self, e: int) -> bool { edge_ok_c(self.fp_context, self.node_values@, e) }
 
-    /// node has a value and all its outgoing edges are absorbed
-    pub open spec fn closed_at(&self, node: NodeIndex) -> bool {
-        &&& self.has(node)
-        &&& forall |e: int| self.valid_edge(e) && self.src(e) == node ==> #[trigger] self.edge_ok(e)
-    }
+    #[verifier::inline]
+    pub open spec fn closed_at(&self, node: NodeIndex) -> bool { closed_at_c(self.fp_context, self.node_values@, node) }
 
     /// every node with a value whose priority is not in `s` is closed
+    #[verifier::inline]
     pub open spec fn closed_off(&self, s: Set<usize>) -> bool {
-        forall |node: NodeIndex| self.has(node) && !s.contains(self.prio(node)) ==> #[trigger] self.closed_at(node)
+        closed_off_c(self.fp_context, self.node_priority_list@, self.node_values@, s)
     }
 
-    /// the same, edge by edge (equivalent under wf: lemma_closed_off_edges)
+    #[verifier::inline]
     pub open spec fn closed_off_e(&self, s: Set<usize>) -> bool {
-        forall |e: int| self.valid_edge(e) && !s.contains(self.prio(self.src(e))) ==> #[trigger] self.edge_ok(e)
+        closed_off_e_c(self.fp_context, self.node_priority_list@, self.node_values@, s)
     }
 
     /// THE closure statement of the property, unfolded: for every edge e = (a, b) of the graph,
     /// if a has the value v and the transfer of e maps v to Some(x), then b has a value t >= x.
     pub open spec fn all_closed(&self) -> bool {
-        forall |e: int| 0 <= e < self.graph().edge_seq().len() ==> {
-            let a = (#[trigger] self.graph().edge_seq()[e]).0;
-            let b = self.graph().edge_seq()[e].1;
+        forall |e: int| 0 <= e < self.fp_context.graph_spec().edge_seq().len() ==> {
+            let a = (#[trigger] self.fp_context.graph_spec().edge_seq()[e]).0;
+            let b = self.fp_context.graph_spec().edge_seq()[e].1;
             self.node_values@.contains_key(a) ==>
                 match self.fp_context.update_edge_spec(self.node_values@[a], EdgeIndex { i: e as usize }) {
                     Some(x) => self.node_values@.contains_key(b)
@@ -129,4 +161,24 @@ impl<T: Context> Computation<T> {
         forall |e: int| self.valid_edge(e) && #[trigger] self.edge_ok(e)
             && (self.src(e) != node || later.node_values@ == self.node_values@) ==> later.edge_ok(e)
     }
+}
+
+/// some entry of `s` is the node with index v
+pub open spec fn takes_value(s: Seq<NodeIndex>, v: int) -> bool {
+    exists |j: int| 0 <= j < s.len() && (#[trigger] s[j]).i == v
+}
+
+/// `nodes` (position = priority, entry = node) is a permutation of the n node indices
+pub open spec fn is_node_permutation(nodes: Seq<NodeIndex>, n: nat) -> bool {
+    &&& nodes.len() == n
+    &&& forall |i: int| 0 <= i < n ==> (#[trigger] nodes[i]).i < n
+    &&& forall |i: int, j: int| 0 <= i < j < n ==> (#[trigger] nodes[i]).i != (#[trigger] nodes[j]).i
+    &&& forall |k: int| 0 <= k < n ==> #[trigger] takes_value(nodes, k)
+}
+
+/// (c) the remaining step budget of `compute_with_max_steps`: sum over all nodes of max_steps - steps[n]
+pub open spec fn steps_left(steps: Seq<u64>, max: u64) -> int
+    decreases steps.len()
+{
+    if steps.len() == 0 { 0 } else { steps_left(steps.drop_last(), max) + (max - steps.last()) }
 }
